@@ -124,7 +124,7 @@ def run_case(case):
     rho = float(np.hypot(*(b - a)[:2]))
     z0, z1 = float(a[2]), float(b[2])
     geo = {"ice": [n0, k_, a_, [zmin, ztop]], "from": a.tolist(), "to": b.tolist(), "rho": rho, "tracer": case["tracer"], "dz": case["dz"],
-           "sat0": bool(n0 - nfun(z0) < 8 * EPS * n0), "sat1": bool(n0 - nfun(z1) < 8 * EPS * n0)}
+           "sat0": bool(n0 - nfun(z0) < 32 * EPS * n0), "sat1": bool(n0 - nfun(z1) < 32 * EPS * n0)}
     rt = make_tracer(case, a, b, ice)
     try:
         sols = list(rt.solutions)
